@@ -17,6 +17,9 @@ use crate::{
     QoS,
 };
 use bytes::{Bytes, BytesMut};
+#[cfg(feature = "verif")]
+use crate::verif::{AtomicU16, AtomicU32};
+#[cfg(not(feature = "verif"))]
 use core::sync::atomic::{AtomicU16, AtomicU32};
 use either::{Either, Left, Right};
 use futures::{
@@ -77,7 +80,12 @@ where
 
         let elapsed = connection
             .disconnection_timestamp
-            .map(|timestamp| timestamp.elapsed().unwrap())
+            .map(|timestamp| {
+                #[cfg(feature = "verif")]
+                return crate::verif::elapsed_since(timestamp);
+                #[cfg(not(feature = "verif"))]
+                timestamp.elapsed().unwrap()
+            })
             .map(|elapsed| elapsed.as_secs())
             .map(|elapsed| {
                 if elapsed > u32::MAX as u64 {
@@ -356,6 +364,28 @@ where
         }
 
         Ok(())
+    }
+
+    /// Verification hook: records that the previous connection was lost `ago` before the
+    /// (simulated) current time, which is what makes the next [run](Context::run) take the
+    /// session resumption path.
+    ///
+    #[cfg(feature = "verif")]
+    pub fn verif_mark_disconnected(&mut self, ago: core::time::Duration) {
+        self.connection.disconnection_timestamp = Some(crate::verif::now() - ago);
+    }
+
+    /// Verification hook: (send quota, operations awaiting acknowledgement, registered
+    /// subscription streams, packets queued for retransmission). Coverage measure only.
+    ///
+    #[cfg(feature = "verif")]
+    pub fn verif_snapshot(&self) -> (u16, usize, usize, usize) {
+        (
+            self.connection.send_quota,
+            self.session.awaiting_ack.len(),
+            self.session.subscriptions.len(),
+            self.session.retrasmit_queue.len(),
+        )
     }
 
     /// Creates a new [Context] instance, paired with [ContextHandle].
